@@ -51,15 +51,22 @@ Section All.
   Notation qo := (q_unwrap_obj repaired).
   Notation A := (pti_doc qo S F D).
 
-  (** no primary error: nothing at all *)
-  Theorem no_primary_then_nothing errs :
-    schema_ok S = true -> schema_args_ok S = true ->
-    all_rules repaired pi S F A = Done errs -> primary errs = [] -> errs = [].
+  (** no primary error: nothing at all — for either way of running validateFields.  [Hmerge]: what
+      the second visitor adds to a state without errors is primary *)
+  Lemma no_primary_then_nothing_gen rf errs :
+    schema_ok S = true -> schema_args_ok S = true -> fields_prefix S F D rf ->
+    ((forall a sels p n np dirs e, In (SelSet a sels p) (all_subs A) -> In (SSpread n np dirs e) sels -> frag_last A n <> None) ->
+     (forall a sels p fa al n np args dirs sub, In (SelSet a sels p) (all_subs A) -> In (SField fa al n np args dirs sub) sels ->
+                                                 a <> None /\ (name_eqb n n_typename = true \/ fa <> None)) ->
+     NoDup (frag_names A) -> (forall n, In n (frag_names A) -> ~ exists x, reach A n x /\ edge A x n) ->
+     r_errs (inspect (fields_enter S F) pop (tree_doc A) rst0) = [] ->
+     forall e2, rf = Done e2 -> all_primary e2) ->
+    rules_with repaired pi S F A rf = Done errs -> primary errs = [] -> errs = [].
   Proof.
-    intros Hs Hargs Hall Hprim.
-    destruct (no_primary_then_silent pi S F D errs Hpi Hs Hall Hprim) as [Hroot [Hgood [Hpass [Hdecl [Hdir Hsp]]]]].
-    destruct (no_primary_then_rules_silent pi S F D errs Hpi Hs Hargs Hall Hprim) as [Ra [Rv Rvar]].
-    destruct (all_rules_split _ _ _ _ _ _ Hall) as [e1 [e2 [e3 [e5 [e6 [e7 [e8 [R1 [R2 [R3 [R5 [R6 [R7 [R8 ->]]]]]]]]]]]]]].
+    intros Hs Hargs Hrf Hmerge Hall Hprim.
+    destruct (no_primary_then_silent_gen pi S F D rf errs Hpi Hs Hrf Hall Hprim) as [Hroot [Hgood [Hpass [Hdecl [Hdir Hsp]]]]].
+    destruct (no_primary_then_rules_silent_gen pi S F D rf errs Hpi Hs Hargs Hrf Hall Hprim) as [Ra [Rv Rvar]].
+    destruct (rules_with_split _ _ _ _ _ _ _ Hall) as [e1 [e2 [e3 [e5 [e6 [e7 [e8 [R1 [R2 [R3 [R5 [R6 [R7 [R8 ->]]]]]]]]]]]]]].
     rewrite !primary_app_nil in Hprim. destruct Hprim as [P1 [P2 _]].
     rewrite Ra in R3. rewrite Rv in R6. rewrite Rvar in R8. rewrite Hdir in R7. rewrite Hsp in R5.
     apply Done_inj in R3. apply Done_inj in R5. apply Done_inj in R6. apply Done_inj in R7. apply Done_inj in R8. subst e3 e5 e6 e7 e8.
@@ -97,14 +104,34 @@ Section All.
     assert (e1 = []) as -> by (apply (primary_nil_all _ (rule_operations_primary A Hspd Hsf e1 R1) P1)).
     (* fields *)
     assert (e2 = []) as ->; [| reflexivity].
-    apply primary_nil_all; [| exact P2]. intros e He.
     assert (NoDup (frag_names A)) as Hnd.
     { rewrite frag_names_pti. apply (proj1 (rule_fragment_declarations_iff pi Hpi S F D)) in Hdecl.
       unfold valid_5_5_1 in Hdecl. rewrite !andb_true_iff in Hdecl. destruct Hdecl as [[[H1 _] _] _]. apply nodupb_NoDup. exact H1. }
-    pose proof (rule_fields_no_depth pi Hpi S F A Hnd (silent_acyclic pi S F A Hpi Hsp) e2 R2 e He) as Hk.
+    apply (primary_nil_all _ (Hmerge Hspd Hsf Hnd (silent_acyclic pi S F A Hpi Hsp) Hpass e2 R2) P2).
+  Qed.
+
+  Theorem no_primary_then_nothing errs :
+    schema_ok S = true -> schema_args_ok S = true ->
+    all_rules repaired pi S F A = Done errs -> primary errs = [] -> errs = [].
+  Proof.
+    intros Hs Hargs Hall Hprim. rewrite all_rules_with in Hall.
+    apply (no_primary_then_nothing_gen _ errs Hs Hargs (rule_fields_prefix pi S F D)); [| exact Hall | exact Hprim].
+    intros Hspd Hsf Hnd Hac Hpass e2 R2 e He.
+    pose proof (rule_fields_no_depth pi Hpi S F A Hnd Hac e2 R2 e He) as Hk.
     unfold rule_fields in R2. apply finish_done_inv in R2.
     assert (mild (inspect (fields_enter S F) pop (tree_doc A) rst0)) as H0 by (intros x Hx; rewrite Hpass in Hx; destruct Hx).
     pose proof (merge_pass_mild pi Hpi S A Hspd Hsf _ H0) as Hm. unfold mild in Hm. rewrite R2 in Hm. destruct (Hm e He) as [H | H]; [exact H | congruence].
+  Qed.
+
+  Theorem no_primary_then_nothing_memo errs :
+    schema_ok S = true -> schema_args_ok S = true ->
+    all_rules_m repaired pi S F A = Done errs -> primary errs = [] -> errs = [].
+  Proof.
+    intros Hs Hargs Hall Hprim. rewrite all_rules_m_with in Hall.
+    apply (no_primary_then_nothing_gen _ errs Hs Hargs (rule_fields_m_prefix pi S F D)); [| exact Hall | exact Hprim].
+    intros Hspd Hsf Hnd Hac Hpass e2 R2.
+    unfold rule_fields_m in R2. apply finish_done_inv in R2. rewrite <- R2.
+    apply (merge_pass_m_primary pi Hpi S A Hspd Hsf Hnd Hac). cbn [fst]. rewrite Hpass. intros x [].
   Qed.
 
   (** secondary_never_alone *)
@@ -116,6 +143,16 @@ Section All.
     destruct (all_rules repaired pi S F A) as [errs0 | s |] eqn:Ea; try discriminate. apply Done_inj in H. subst errs.
     unfold filter_primary in He. fold (primary errs0) in He. destruct (primary errs0) as [|x l] eqn:Ep.
     - rewrite (no_primary_then_nothing errs0 Hs Hargs Ea Ep) in He. destruct He.
+    - rewrite <- Ep in He. apply filter_In in He as [_ He]. apply negb_true_iff in He. exact He.
+  Qed.
+  Theorem secondary_never_alone_memo errs e :
+    schema_ok S = true -> schema_args_ok S = true ->
+    validate_model_memo repaired pi S F D = Done errs -> In e errs -> e_sec e = false.
+  Proof.
+    intros Hs Hargs H He. unfold validate_model_memo in H. rewrite type_info_pure in H.
+    destruct (all_rules_m repaired pi S F A) as [errs0 | s |] eqn:Ea; try discriminate. apply Done_inj in H. subst errs.
+    unfold filter_primary in He. fold (primary errs0) in He. destruct (primary errs0) as [|x l] eqn:Ep.
+    - rewrite (no_primary_then_nothing_memo errs0 Hs Hargs Ea Ep) in He. destruct He.
     - rewrite <- Ep in He. apply filter_In in He as [_ He]. apply negb_true_iff in He. exact He.
   Qed.
 End All.
